@@ -187,6 +187,69 @@ def install_images():
     wrap(I.Images, "serialize", _images_serialize)
 
 
+# ------------------------------------------------------------------ composeinfo variant forest (C11)
+
+FOREST_OBJS = {}      # object name -> attributes logged at its add calls
+
+
+def _fname(obj, md):
+    n = getattr(obj, "_verif_fname", None)
+    if n is None:
+        _SERIAL[0] += 1
+        n = "v%d" % _SERIAL[0]
+        try:
+            obj._verif_fname = n
+        except Exception:
+            pass
+    return n
+
+
+def _fattrs(v):
+    uid = getattr(v, "uid", None)
+    arches = getattr(v, "arches", None)
+    return {"id": getattr(v, "id", None), "uid": uid, "flat": uid.replace("-", "") if isinstance(uid, str) else None,
+            "arches": sorted(arches) if isinstance(arches, (set, frozenset, list)) else None, "type": getattr(v, "type", None)}
+
+
+def _forest_add(orig, self, a, kw):
+    import productmd.composeinfo as CI
+    if type(self) not in (CI.Variants, CI.Variant) or not a or type(a[0]) is not CI.Variant or len(a) > 1 or kw:
+        return orig(self, *a, **kw)
+    variant = a[0]
+    md = getattr(self, "_metadata", None)
+    if md is None:
+        return orig(self, *a, **kw)
+    oname = _fname(variant, md)
+    cname = "ROOT" if type(self) is CI.Variants else _fname(self, md)
+    mutated = False
+    for n, o in ((oname, variant),) + (((cname, self),) if cname != "ROOT" else ()):
+        at = _fattrs(o)
+        ok = all(isinstance(at[k], str) for k in ("id", "uid", "type")) and at["arches"] is not None
+        if not ok or (n in FOREST_OBJS and FOREST_OBJS[n] != at):
+            mutated = True
+        elif n not in FOREST_OBJS:
+            FOREST_OBJS[n] = at
+    out, res, exc = call(orig, self, a, kw)
+    if mutated:
+        emit(md, "forest", {"op": "mutated"})
+    else:
+        par = getattr(variant, "parent", None)
+        emit(md, "forest", {"op": "add", "c": cname, "o": oname, "out": out, "nkids": len(self.variants),
+                            "par": "None" if par is None else getattr(par, "_verif_fname", "<unnamed>")})
+    if exc is not None:
+        raise exc
+    return res
+
+
+def install_forest():
+    import productmd.composeinfo as CI
+    wrap(CI.VariantBase, "add", _forest_add)
+    orig_variant_add = CI.Variant.__dict__.get("add")
+    if orig_variant_add is not None:
+        # Variant.add simply forwards to VariantBase.add: record at the outer call only (depth counter)
+        wrap(CI.Variant, "add", _forest_add)
+
+
 # ------------------------------------------------------------------ dump protocol (C18)
 
 DUMP = {"active": None, "inject": None}     # active: dict of the dump being recorded
@@ -277,7 +340,7 @@ def install_dump():
 
 # ------------------------------------------------------------------ install / flush
 
-INSTALLERS = [install_images, install_dump]
+INSTALLERS = [install_images, install_forest, install_dump]
 
 
 def install():
@@ -296,6 +359,7 @@ def flush():
     out = {}
     for family, traces in TRACES.items():
         out[family] = [{"tid": t, "events": evs} for t, evs in traces.items() if evs]
+    out["forest_objs"] = FOREST_OBJS
     with open(path, "w") as fh:
         json.dump(out, fh)
 
